@@ -246,6 +246,26 @@ def main():
             print(f"VIOLATION property={prop} replay={p} no-failing-input-found")
             violations += 1
 
+    # ---- 4c'. C18: constructor IDs of declared functions (distinct functions distinct IDs, same function same ID)
+    id_cov = None
+    if prop == "C18":
+        import subprocess
+        r = subprocess.run([common.HARNESS_BIN, "idprobe"], stdout=subprocess.PIPE, stderr=subprocess.DEVNULL, text=True, timeout=120)
+        recs = json.loads(r.stdout) if r.returncode == 0 and r.stdout.strip() else []
+        acc = [x for x in recs if not x.get("err")]
+        byf, byid = collections.defaultdict(set), collections.defaultdict(set)
+        for x in acc:
+            byf[x["pool"]].add(x["id"])
+            byid[x["id"]].add(x["pool"])
+        bad = [f for f, v in byf.items() if len(v) > 1] + [i for i, v in byid.items() if len(v) > 1]
+        touched = [x for x in recs if x.get("err") and x["id"] != 0]
+        id_cov = dict(functions=len(byf), id_records=len(recs), accepted=len(acc), inconsistent=len(bad), rejected_but_id_written=len(touched))
+        if not recs or bad or touched:
+            p = write_replay(prop, "idprobe", {"property": prop, "meaning": "IDs of declared functions: the same function must always get the same ID, distinct functions distinct IDs, a rejected call must not write an ID",
+                                               "records": recs[:400], "inconsistent": bad, "rejected_but_id_written": touched[:20]})
+            print(f"VIOLATION property={prop} replay={p}")
+            violations += 1
+
     # ---- 4d. C19: Visualize against Dot.v and the registry
     viz_cov = None
     if prop == "C19" and all(f in built for f in ("Dot", "RunViz")):
@@ -350,6 +370,8 @@ def main():
                model_impl_disagreements=len(set(m[0] for m in M)),
                checker_failures=len(V), known_finding_hits=sum(known_hits.values()),
                input_distribution=dist)
+    if id_cov:
+        cov["function_ids"] = id_cov
     if viz_cov:
         cov["visualize"] = viz_cov
         cov["evaluations"] += viz_cov["viz_cases"]
